@@ -235,6 +235,9 @@ class NonBondEngine():
         """
         for mol_idx, molecule in enumerate(molecules):
             for node in molecule.nodes:
+                # molecules that are ignored during building are not part of the engine
+                if (mol_idx, node) not in self.nodes_to_gndx:
+                    continue
                 gndx = self.nodes_to_gndx[(mol_idx, node)]
                 molecule.nodes[node]["position"] = self.positions[gndx]
 
